@@ -7,6 +7,8 @@ import subprocess
 ROOT = os.path.dirname(os.path.dirname(os.path.abspath(__file__)))
 
 TECH = {
+    "C10": ("history monitor over signer subsets / orders / combine shapes on parse(serialize()) copies (one combined PSBT and one final tx per signer set, success iff >= m); contracts on PSBT.serialize (independent TLV reader), combine, finalize, final_tx; corrupted partial signatures must not load", "2 C10"),
+    "C11": ("boundary monitor on PSBT.parse + describe_basic_multisig: sums vs ground truth, independent change oracle re-deriving every labelled change output from the wallet seeds with reference BIP32, BIP174-level tamper catalogue", "2 C11"),
     "C07": ("contracts on every non-signature OP_CODE_FUNCTIONS entry and on encode_num/decode_num vs a port of EvalScript; whole-program differential on Script.evaluate; timelock grid", "2 C07"),
     "C06": ("boundary monitor on Tx.verify_input: library-signed positives for 12 spend types, mutation catalogue classified by a reference authorisation analyser (negatives carry an unauthorised-by-construction proof); contracts on the signature opcodes", "2 C06"),
     "C05": ("contracts on Tx.sig_hash_legacy/_bip143/_bip341/sig_hash that snapshot the object at call time and recompute the digest with a memo-free reference; query/edit history workload; fresh-object comparison", "2 C05"),
